@@ -297,16 +297,18 @@ def _scribble(a, R, tables=False):
 def _exec_group(task):
     group, sd = task
     cache, trans, where, paths = {}, {}, {}, []
-    for b, R, v in group:
+    for ci, (b, R, v) in enumerate(group):
         steps = execute(b, R, v, random.Random(sd), cache)
         path = []
         for n, rec in enumerate(steps):
             s = _strip(rec)
-            key = json.dumps(s, sort_keys=True)
+            key = hashlib.sha1(json.dumps(s, sort_keys=True).encode()).hexdigest()      # identifies the distinct transition
             path.append(key)
             if key not in trans:
                 trans[key] = s
-                where[key] = (b, R, v, n, rec)
+                # (only a reference to the behaviour: the parent process has the groups; copies of whole behaviours per
+                # transition cost gigabytes in the thorough tier)
+                where[key] = (ci, n, {"exc_msg": rec.get("exc_msg", ""), "listing": rec.get("listing")})
         paths.append(path)
     return trans, where, paths, len(group)
 
@@ -637,12 +639,12 @@ def run(prop, tier, replay=None):
     else:
         with multiprocessing.get_context("fork").Pool(min(14, len(tasks))) as pool:
             results = pool.map(_exec_group, tasks, chunksize=1)
-    for tr, wh, pa, nexec in results:
+    for gi, (tr, wh, pa, nexec) in enumerate(results):
         out.evaluations += nexec
         for k, v in tr.items():
             if k not in trans:
                 trans[k] = v
-                where[k] = wh[k]
+                where[k] = (gi,) + tuple(wh[k])
         paths.extend(pa)
     items = list(trans.values())
     keys = list(trans.keys())
@@ -662,7 +664,9 @@ def run(prop, tier, replay=None):
     by_clause = {}
     for key in keys:
         item = trans[key]
-        b, R, var, n, rec = where[key]
+        gi, ci, n, extra = where[key]
+        b, R, var = tasks[gi][0][ci]
+        rec = dict(item, **extra)
         mine = item["op"] in ops
         v = verdicts[key]
         if key in live_ok and mine:
